@@ -18,19 +18,28 @@ section general
 variable {K : Type} [Lean.Grind.Field K] [Lean.Grind.IsCharP K 0] [BEq K] [LawfulBEq K]
   [IsClose K] [LawfulIsClose K]
 
-/-- the excluded region of the additive claim: a difference on the left, a point on the right,
-    and the two units of different size -/
-def addGuard (u0 u1 : TU K) : Bool :=
-  !(kind u0.base == .diff && kind u1.base == .point && !(u0.scale exactTab == u1.scale exactTab))
-
-theorem temp_add_partial (u0 u1 : TU K) (x0 x1 : K) (h0 : u0.WF) (_h1 : u1.WF) (r : TU K × K)
-    (hg : addGuard u0 u1 = true)
+/-- every returned sum is the one affine arithmetic gives: point + difference, difference +
+    point (the difference expressed in the unit the result is labelled with), difference +
+    difference -/
+theorem temp_add_correct (u0 u1 : TU K) (x0 x1 : K) (h0 : u0.WF) (h1 : u1.WF) (r : TU K × K)
     (h : tempAdd exactTab u0 x0 u1 x1 = .ok r) : addSpec u0 x0 u1 x1 r := by
+  have hs0 := scale_ne u0 h0
+  have hs1 := scale_ne u1 h1
   obtain ⟨c, hc, rfl⟩ := tempAdd_ok h
   have hy := convSecond_spec h0 hc x1
+  have hy0 : applyC (c.map fun _ => u0.scale exactTab / u1.scale exactTab) x0 * u1.scale exactTab
+      = x0 * u0.scale exactTab := by
+    cases c with
+    | some v => simp only [Option.map, applyC]; grind
+    | none =>
+      simp only [Option.map, applyC]
+      unfold convSecond at hc
+      split at hc
+      · rename_i he; rw [((unitEq_iff _ _ _).1 he).1]
+      · simp only at hc; split at hc <;> cases hc
   simp only [addSpec, preserveUnits, hasOffset_exact]
-  cases hk0 : kind u0.base <;> cases hk1 : kind u1.base <;>
-    simp [hk0, hk1, addGuard] at hg ⊢ <;> simp only [absK_eq, difK_eq] <;> grind
+  cases hk0 : kind u0.base <;> cases hk1 : kind u1.base <;> simp <;>
+    simp only [absK_eq, difK_eq] <;> grind
 
 theorem temp_sub_correct (u0 u1 : TU K) (x0 x1 : K) (h0 : u0.WF) (h1 : u1.WF) (r : TU K × K)
     (h : tempSub exactTab u0 x0 u1 x1 = .ok r) : subSpec u0 x0 u1 x1 r := by
@@ -257,14 +266,32 @@ theorem temp_square_refuses [RPow K] (u : TU K) (h : onOffsetScale u = true) :
       UnitV.isTempOrAngle, toUnitV] at hm ho
     simp [ho.1.1, d1, d2] at hm
 
-/-- what the code does instead of refusing: `Unit.__pow__` resets the offset and never refuses a
-    temperature unit, so roots, powers, reciprocals and product reductions all return a value -/
-theorem temp_power_forms_return [RPow K] (u : TU K) (op : UnOp) (hop : op ≠ .square) :
-    ∃ r, tempUnary exactTab op u = .ok r := by
-  have d1 : ¬ Dim.dTemperature = Dim.dLogarithmic := by decide
-  cases op <;> first
-    | exact absurd rfl hop
-    | exact ⟨_, by simp only [tempUnary, UnitV.pow, UnitV.isLogarithmic, toUnitV]; simp [d1]; rfl⟩
+/-- every power form — roots, reciprocal, `np.power` / `x ** p` / `**=` with an exponent other
+    than 0 and 1, product reductions over two or more elements, squaring — refuses an offset-scale
+    quantity -/
+theorem temp_power_refuses [RPow K] (u : TU K) (op : UnOp) (ho : onOffsetScale u = true)
+    (hop : powerLike op = true) : tempUnary exactTab op u = .error .InvalidUnitOperation := by
+  have hoff : (u.offset exactTab != 0) = true := by
+    have := hasOffset_exact u; simp only [hasOffset] at this; rw [this]; exact ho
+  cases op <;> simp only [tempUnary, unitPow, hoff, Bool.true_and]
+  · simp; intro h; exact absurd h (by decide +kernel)
+  · simp; intro h; exact absurd h (by decide +kernel)
+  · exact temp_square_refuses u ho
+  · simp; intro h; exact absurd h (by decide +kernel)
+  · simp only [powerLike, Bool.and_eq_true] at hop; simp [hop.1, hop.2]
+  · rename_i n
+    simp only [powerLike, decide_eq_true_eq] at hop
+    have h0 : ((n : Rat) != 0) = true := by
+      simp only [bne_iff_ne, ne_eq]
+      intro h1
+      have : n = 0 := by exact_mod_cast h1
+      omega
+    have h1 : ((n : Rat) != 1) = true := by
+      simp only [bne_iff_ne, ne_eq]
+      intro h1
+      have : n = 1 := by exact_mod_cast h1
+      omega
+    simp [h0, h1]
 
 /-! ### diff / ediff1d / ptp -/
 
@@ -273,25 +300,28 @@ theorem temp_power_forms_return [RPow K] (u : TU K) (op : UnOp) (hop : op ≠ .s
 def diffSpec (u : TU K) (xa xb : K) (r : TU K × K) : Prop :=
   kind r.1.base = .diff ∧ difK r.1 r.2 = den (kind u.base) u xb - den (kind u.base) u xa
 
-/-- the excluded region of the `diff` claim: units whose size is not that of `delta_degC` -/
-def diffGuard (u : TU K) : Bool := u.scale exactTab == (TU.bare .dC : TU K).scale exactTab
-
-theorem temp_diff_partial (u : TU K) (xa xb : K) (r : TU K × K) (hg : diffGuard u = true)
+/-- every value `np.diff` / `np.ediff1d` / `np.ptp` return is the difference of the readings, in a
+    difference unit of the right size -/
+theorem temp_diff_correct (u : TU K) (xa xb : K) (r : TU K × K)
     (h : tempDiff exactTab u xa xb = .ok r) : diffSpec u xa xb r := by
   unfold tempDiff diffHelper at h
   split at h
   · rename_i l hl
     split at hl
     · cases hl
-    · cases hl; cases h
-      rename_i hno
-      simp only [diffGuard, beq_iff_eq] at hg
+    · rename_i hno
       have hk : kind u.base = .diff := by
         rw [hasOffset_exact] at hno
         cases hq : kind u.base <;> simp_all
-      simp only [diffSpec, hk, den]
-      refine ⟨rfl, ?_⟩
-      simp only [difK_eq, ← hg]; grind
+      split at hl
+      · rename_i he
+        cases hl; cases h
+        have hsc := ((unitEq_iff _ _ _).1 he).1
+        simp only [diffSpec, hk, den]
+        refine ⟨rfl, ?_⟩
+        simp only [difK_eq, ← hsc]; grind
+      · cases hl; cases h
+        simp only [diffSpec, hk, den, difK_eq, true_and]; grind
   · cases h
 
 /-- `np.diff`, `np.ediff1d`, `np.ptp` refuse arrays on an offset scale -/
@@ -327,70 +357,9 @@ theorem temp_conversions_affine (u v : TU K) (hu : u.WFP) (hv : v.WFP) (x : K) :
         simpa using hz
       grind
 
-/-! ### the candidate repairs satisfy the full statements (design.d/C08.md) -/
-
-/-- repair 1 (`tempAddFixed`): every returned sum is the affine one — no guard -/
-theorem temp_add_fixed_correct (u0 u1 : TU K) (x0 x1 : K) (h0 : u0.WF) (h1 : u1.WF) (r : TU K × K)
-    (h : tempAddFixed exactTab u0 x0 u1 x1 = .ok r) : addSpec u0 x0 u1 x1 r := by
-  have hs0 := scale_ne u0 h0
-  have hs1 := scale_ne u1 h1
-  unfold tempAddFixed at h
-  split at h
-  · cases h
-  · split at h
-    · cases h
-    · rename_i c hc
-      have hy := convSecond_spec h0 hc x1
-      have hy0 : applyC (c.map fun _ => u0.scale exactTab / u1.scale exactTab) x0 * u1.scale exactTab
-          = x0 * u0.scale exactTab := by
-        cases c with
-        | some v => simp only [Option.map, applyC]; grind
-        | none =>
-          simp only [Option.map, applyC]
-          unfold convSecond at hc
-          split at hc
-          · rename_i he; rw [((unitEq_iff _ _ _).1 he).1]
-          · simp only at hc; split at hc <;> cases hc
-      simp only [hasOffset_exact] at h
-      split at h <;> cases h <;> simp only [addSpec] <;>
-        cases hk0 : kind u0.base <;> cases hk1 : kind u1.base <;> simp_all <;>
-        simp only [absK_eq, difK_eq] <;> grind
-
-/-- repair 3 (`tempDiffFixed`): every returned difference is right — no guard -/
-theorem temp_diff_fixed_correct (u : TU K) (xa xb : K) (r : TU K × K)
-    (h : tempDiffFixed exactTab u xa xb = .ok r) : diffSpec u xa xb r := by
-  unfold tempDiffFixed at h
-  split at h
-  · cases h
-  · rename_i hno
-    cases h
-    have hk : kind u.base = .diff := by
-      rw [hasOffset_exact] at hno
-      cases hq : kind u.base <;> simp_all
-    simp only [diffSpec, hk, den, difK_eq, true_and]; grind
-
-/-- repair 2 (`tempUnaryFixed`): every power form refuses an offset-scale quantity -/
-theorem temp_unary_fixed_refuses [RPow K] (u : TU K) (op : UnOp) (ho : onOffsetScale u = true)
-    (hop : powerLike op = true) : tempUnaryFixed exactTab op u = .error .InvalidUnitOperation := by
-  have hoff : hasOffset exactTab u = true := by rw [hasOffset_exact]; exact ho
-  cases op <;> simp only [tempUnaryFixed, hoff, Bool.true_and]
-  · simp; intro h; exact absurd h (by decide +kernel)
-  · simp; intro h; exact absurd h (by decide +kernel)
-  · exact temp_square_refuses u ho
-  · simp; intro h; exact absurd h (by decide +kernel)
-  · simp only [powerLike, Bool.and_eq_true] at hop; simp [hop.2]
-  · rename_i n
-    simp only [powerLike, decide_eq_true_eq] at hop
-    have : ((n : Rat) != 1) = true := by
-      simp only [bne_iff_ne, ne_eq]
-      intro h1
-      have : n = 1 := by exact_mod_cast h1
-      omega
-    simp [this]
-
 end general
 
-/-! ### the property at full strength, what holds, and why the full statement fails -/
+/-! ### the property at full strength -/
 
 /-- C08 at full strength, about the faithful model over the exact table: for every field of
     characteristic zero, every unit of the family (any SI prefix of the regenerated prefix table on
@@ -421,85 +390,30 @@ def C08_full : Prop :=
     ∧ (∀ (u : TU K), u.WF → onOffsetScale u = true → ∀ xa xb : K,
         ∃ e, tempDiff exactTab u xa xb = .error e)
 
-/-- what holds of unyt as it is: the full statement with three excluded regions —
-    `difference + point` of different size (`addGuard`), the power forms other than squaring,
-    and `diff/ediff1d/ptp` of units that are not the size of `delta_degC` (`diffGuard`) -/
-theorem C08_partial :
-    ∀ (K : Type) [Lean.Grind.Field K] [Lean.Grind.IsCharP K 0] [BEq K] [LawfulBEq K]
-      [IsClose K] [LawfulIsClose K] [RPow K],
-    (∀ (u v : TU K), u.WFP → v.WFP → ∀ x : K,
-        absK v (tempConv genSyms genNames exactTab u v x) = absK u x)
-    ∧ (∀ (u0 u1 : TU K), u0.WF → u1.WF → ∀ (x0 x1 : K) (r : TU K × K), addGuard u0 u1 = true →
-        tempAdd exactTab u0 x0 u1 x1 = .ok r → addSpec u0 x0 u1 x1 r)
-    ∧ (∀ (u0 u1 : TU K), u0.WF → u1.WF → ∀ (x0 x1 : K) (r : TU K × K),
-        tempSub exactTab u0 x0 u1 x1 = .ok r → subSpec u0 x0 u1 x1 r)
-    ∧ (∀ (u0 u1 : TU K), u0.WF → u1.WF → ∀ (x0 x1 : K) (r : K × K),
-        tempCmpArgs exactTab u0 x0 u1 x1 = .ok r → cmpSpec u0 x0 u1 x1 r)
-    ∧ (∀ (u : TU K), u.WF → ∀ (xa xb : K) (r : TU K × K), diffGuard u = true →
-        tempDiff exactTab u xa xb = .ok r → diffSpec u xa xb r)
-    ∧ (∀ (u0 u1 : TU K), u0.WF → u1.WF → differentOffsetScales u0 u1 = true → ∀ x0 x1 : K,
-        (∃ e, tempAdd exactTab u0 x0 u1 x1 = .error e) ∧ (∃ e, tempSub exactTab u0 x0 u1 x1 = .error e)
-        ∧ (∃ e, tempCmpArgs exactTab u0 x0 u1 x1 = .error e))
-    ∧ (∀ (a b : Opnd K), opndOnOffsetScale a = true ∨ opndOnOffsetScale b = true →
-        (∃ e, tempMul exactTab a b = .error e) ∧ (∃ e, tempDivide exactTab a b = .error e))
-    ∧ (∀ (u : TU K) (op : UnOp), u.WF → onOffsetScale u = true → op = .square →
-        ∃ e, tempUnary exactTab op u = .error e)
-    ∧ (∀ (u : TU K), u.WF → onOffsetScale u = true → ∀ xa xb : K,
-        ∃ e, tempDiff exactTab u xa xb = .error e) := by
+/-- the full statement holds of the model of the current code (with the three `fix:` repairs of
+    fixes/C08-0{1,2,3}-*.patch in the tree; before them it was false: `1 Δ°C + 50 °F` was `28.78 °F`,
+    `sqrt` of a °C quantity returned, `diff` of rankine readings was labelled `delta_degC`) -/
+theorem C08_holds : C08_full := by
   intro K _ _ _ _ _ _ _
   refine ⟨temp_conversions_affine, ?_, ?_, ?_, ?_, ?_, ?_, ?_, ?_⟩
-  · intro u0 u1 h0 h1 x0 x1 r hg h; exact temp_add_partial u0 u1 x0 x1 h0 h1 r hg h
+  · intro u0 u1 h0 h1 x0 x1 r h; exact temp_add_correct u0 u1 x0 x1 h0 h1 r h
   · intro u0 u1 h0 h1 x0 x1 r h; exact temp_sub_correct u0 u1 x0 x1 h0 h1 r h
   · intro u0 u1 h0 _ x0 x1 r h; exact temp_cmp_correct u0 u1 x0 x1 h0 r h
-  · intro u _ xa xb r hg h; exact temp_diff_partial u xa xb r hg h
+  · intro u _ xa xb r h; exact temp_diff_correct u xa xb r h
   · intro u0 u1 h0 _ hd x0 x1
     obtain ⟨a, b, c⟩ := temp_add_sub_cmp_refuse_mixed u0 u1 x0 x1 h0 hd
     exact ⟨⟨_, a⟩, ⟨_, b⟩, ⟨_, c⟩⟩
   · intro a b h; exact ⟨⟨_, temp_mul_refuses a b h⟩, ⟨_, temp_div_refuses a b h⟩⟩
-  · intro u op _ ho hop; subst hop; exact ⟨_, temp_square_refuses u ho⟩
+  · intro u op _ ho hop; exact ⟨_, temp_power_refuses u op ho hop⟩
   · intro u _ ho xa xb; exact ⟨_, temp_diff_refuses u xa xb ho⟩
 
-/-- witness 1 (replayed on the real code by the harness): `1 Δ°C + 50 °F` is computed in the
-    left scale and labelled with the right unit — the model returns `28 7/9 °F`, affine
-    arithmetic requires `51.8 °F` -/
-theorem C08_add_counterexample :
-    tempAdd (K := Rat) exactTab ⟨none, .dC⟩ 1 ⟨none, .degF⟩ 50 = .ok (⟨none, .degF⟩, 259 / 9)
-    ∧ ¬ addSpec (K := Rat) ⟨none, .dC⟩ 1 ⟨none, .degF⟩ 50 (⟨none, .degF⟩, 259 / 9)
-    ∧ addSpec (K := Rat) ⟨none, .dC⟩ 1 ⟨none, .degF⟩ 50 (⟨none, .degF⟩, 259 / 5) := by
-  refine ⟨by decide +kernel, ?_, ?_⟩
-  · simp only [addSpec, kind, absK, difK, unprefixed, slope, zero]; decide +kernel
-  · simp only [addSpec, kind, absK, difK, unprefixed, slope, zero]; decide +kernel
-
-/-- witness 2: `np.sqrt`, `np.power`, `np.reciprocal`, `np.cbrt`, `np.prod` of a degC quantity
-    return a value instead of refusing -/
-theorem C08_power_counterexample [RPow Rat] :
-    ∀ op ∈ [UnOp.sqrt, .cbrt, .reciprocal, .power 3, .mulReduce 3],
-      ∃ r, tempUnary (K := Rat) exactTab op ⟨none, .degC⟩ = .ok r := by
-  intro op hop
-  apply temp_power_forms_return
-  simp only [List.mem_cons, List.mem_nil_iff, or_false] at hop
-  rcases hop with h | h | h | h | h <;> subst h <;> simp
-
-/-- witness 3: `np.diff` of readings in rankine is labelled `delta_degC` with the numbers
-    untouched — `[1, 10] R` gives `9 Δ°C`, the difference is `5 K` -/
-theorem C08_diff_counterexample :
-    tempDiff (K := Rat) exactTab ⟨none, .R⟩ 1 10 = .ok (⟨none, .dC⟩, 9)
-    ∧ ¬ diffSpec (K := Rat) ⟨none, .R⟩ 1 10 (⟨none, .dC⟩, 9) := by
-  refine ⟨by decide +kernel, ?_⟩
-  simp only [diffSpec, kind, difK, unprefixed, slope]; decide +kernel
-
-/-- the full statement is false of the faithful model -/
-theorem C08_counterexample : ¬ C08_full := by
-  intro h
-  have h2 := (@h Rat _ _ _ _ _ _ ⟨fun x _ => x⟩).2.1
-  exact C08_add_counterexample.2.1
-    (h2 ⟨none, .dC⟩ ⟨none, .degF⟩ trivial trivial 1 50 _ C08_add_counterexample.1)
 
 /-! ### non-vacuity: concrete instances meeting the hypotheses -/
 
-/-- 20 °C + 5 K-sized Δ°F: a returned, guarded sum -/
+/-- 20 °C + 9 Δ°F = 25 °C; and the former counterexample: 1 Δ°C + 50 °F = 51.8 °F -/
 example : tempAdd (K := Rat) exactTab ⟨none, .degC⟩ 20 ⟨none, .dF⟩ 9 = .ok (⟨none, .degC⟩, 25)
-    ∧ addGuard (K := Rat) ⟨none, .degC⟩ ⟨none, .dF⟩ = true := by decide +kernel
+    ∧ tempAdd (K := Rat) exactTab ⟨none, .dC⟩ 1 ⟨none, .degF⟩ 50 = .ok (⟨none, .degF⟩, 259 / 5) := by
+  decide +kernel
 /-- a prefixed instance: 1 K + 500 mK = 1.5 K, with `m` a symbol of the regenerated table -/
 example : tempAdd (K := Rat) exactTab ⟨none, .K⟩ 1 ⟨some ⟨[109], 1 / 1000⟩, .K⟩ 500 = .ok (⟨none, .K⟩, 3 / 2)
     ∧ ([109] ∈ genSyms) := by decide +kernel
@@ -516,9 +430,9 @@ example : tempCmpArgs (K := Rat) exactTab ⟨none, .K⟩ 1 ⟨none, .R⟩ 1 = .o
 example : tempConv (K := Rat) genSyms genNames exactTab ⟨none, .degC⟩ ⟨none, .degF⟩ 100 = 212
     ∧ tempConv (K := Rat) genSyms genNames exactTab ⟨some ⟨[109], 1 / 1000⟩, .degC⟩ ⟨none, .K⟩ 1000 = 27415 / 100 := by
   decide +kernel
-/-- `diff` inside the guard: kelvin readings -/
-example : diffGuard (K := Rat) ⟨none, .K⟩ = true
-    ∧ tempDiff (K := Rat) exactTab ⟨none, .K⟩ 1 10 = .ok (⟨none, .dC⟩, 9) := by decide +kernel
+/-- `diff`: kelvin readings are labelled Δ°C, rankine readings stay rankine -/
+example : tempDiff (K := Rat) exactTab ⟨none, .K⟩ 1 10 = .ok (⟨none, .dC⟩, 9)
+    ∧ tempDiff (K := Rat) exactTab ⟨none, .R⟩ 1 10 = .ok (⟨none, .R⟩, 9) := by decide +kernel
 
 /-- operands on an offset scale (hypotheses of the ×, ÷, power and diff refusals) -/
 example : opndOnOffsetScale (K := Rat) (.temp ⟨none, .degC⟩) = true
@@ -527,9 +441,6 @@ example : opndOnOffsetScale (K := Rat) (.temp ⟨none, .degC⟩) = true
 /-- `np.subtract.reduce` on °C readings is labelled Δ°C -/
 example : reduceUnit (K := Rat) .difference exactTab ⟨none, .degC⟩ = .ok (some ⟨none, .dC⟩) := by
   decide +kernel
-/-- the repaired sum on the witness: 1 Δ°C + 50 °F = 51.8 °F; the repaired `diff` keeps rankine -/
-example : tempAddFixed (K := Rat) exactTab ⟨none, .dC⟩ 1 ⟨none, .degF⟩ 50 = .ok (⟨none, .degF⟩, 259 / 5)
-    ∧ tempDiffFixed (K := Rat) exactTab ⟨none, .R⟩ 1 10 = .ok (⟨none, .R⟩, 9) := by decide +kernel
 /-- a prefixed unit of the universe with a prefixable symbol (hypothesis `WFP` of the conversion theorem) -/
 example : (⟨some ⟨[109], 1 / 1000⟩, .degC⟩ : TU Rat).WFP :=
   ⟨⟨by decide +kernel, by decide +kernel⟩, fun _ => rfl⟩
